@@ -77,12 +77,11 @@ def coroutine_prologue_is_generator() -> bool:
 
 def not_started_predicates(an: Analysis):
     """
-    tests on the task runner's start state in Task.status / Task.__close__:
+    tests on the task runner's start state anywhere in Task:
     list of (fn, test node, form) with form in 'inspect' | 'f_lasti' | None
     """
     result = []
-    for name in ('status', '__close__', 'cancel'):
-        fn = an.method(TASK, name)
+    for name, fn in sorted(an.p.classes[TASK].methods.items()):
         for node in ast.walk(fn.node):
             # wherever the runner's state is compared: if-tests, conditional expressions
             # or a local that holds the outcome
@@ -91,9 +90,27 @@ def not_started_predicates(an: Analysis):
     return result
 
 
+def _reaches(an: Analysis, cls_qn: str, start: str, targets) -> bool:
+    """``self.<name>`` uses lead from method ``start`` to one of the methods ``targets``"""
+    methods = an.p.classes[cls_qn].methods
+    seen, todo = set(), [start]
+    while todo:
+        name = todo.pop()
+        if name in seen or name not in methods:
+            continue
+        seen.add(name)
+        if name in targets:
+            return True
+        for node in ast.walk(methods[name].node):
+            if isinstance(node, ast.Attribute) and isinstance(node.value, ast.Name) and \
+                    node.value.id == 'self' and node.attr in methods:
+                todo.append(node.attr)
+    return False
+
+
 def classify_started_test(test) -> str:
     if isinstance(test, ast.Compare) and len(test.ops) == 1 and \
-            isinstance(test.ops[0], (ast.Eq, ast.Is)):
+            isinstance(test.ops[0], (ast.Eq, ast.Is, ast.NotEq, ast.IsNot)):
         left, right = test.left, test.comparators[0]
         for a, b in ((left, right), (right, left)):
             if isinstance(a, ast.Call) and ast.unparse(a.func).split('.')[-1] == \
@@ -126,9 +143,8 @@ def check_typestate(check, an: Analysis, rule='typestate'):
             raise AnalysisError('unrecognised not-started test %s at %s' % (
                 ast.unparse(test), where))
     names = {fn.name for fn, _t, _f in preds}
-    cancel_uses_status = 'self.status' in ast.unparse(an.method(TASK, 'cancel').node)
-    ok = '__close__' in names and ('cancel' in names or
-                                   (cancel_uses_status and 'status' in names))
+    an.method(TASK, 'cancel')
+    ok = _reaches(an, TASK, '__close__', names) and _reaches(an, TASK, 'cancel', names)
     check.instance(rule, 'Task:not-started-tests-present', ok,
                    where_fn(an.method(TASK, 'status')),
                    'closing and cancelling distinguish not-yet-started tasks (state tests '
